@@ -20,6 +20,7 @@ import (
 	"runtime/debug"
 
 	"github.com/dominant-strategies/go-quai/log"
+	"github.com/dominant-strategies/go-quai/params"
 	"verifharness/hlib"
 )
 
@@ -32,6 +33,14 @@ func chainRng(seed uint64, idx int) *hlib.Rng {
 
 func runOne(rc *runCtx, w *world, idx int, logger *log.Logger) {
 	cfg := cfgFor(idx)
+	if idx >= 1000 {
+		if k := corpus[(idx-1000)%len(corpus)]; k.startTx > 0 {
+			// the schedule constant is read by worker, validator and gas-limit computation: set it for the
+			// lifetime of this chain only (chains run one after the other; the previous zone is closed)
+			params.TimeToStartTx = k.startTx
+			defer func() { params.TimeToStartTx = 0 }()
+		}
+	}
 	c, err := newChain(w, cfg, chainRng(rc.seed, idx), rc.rep, logger)
 	if err != nil {
 		rc.rep.Note("cannot create zone: " + err.Error())
@@ -44,6 +53,10 @@ func runOne(rc *runCtx, w *world, idx int, logger *log.Logger) {
 		c.script = k.script
 		c.poolScript = k.pool
 		c.noMut = k.noMut
+		c.noGeneric = k.noGeneric
+		if k.startTx > 0 {
+			c.startup, c.funded = true, true
+		}
 		last = k.blocks
 		rc.rep.Count("corpus/" + k.name)
 	}
@@ -118,6 +131,6 @@ func main() {
 		}
 	}
 	cw.Close()
-	rep.Note("schedule scaled to a test network before any zone is created: TimeToStartTx=0, ControllerKickInBlock=0, CoinbaseLockupPrecompileKickInHeight=0, ConversionLockPeriod=2, LockupByteToBlockDepth={2,4,6,8}, CoinbaseEpochBlocks=4, TrimDepths=3..8")
+	rep.Note("schedule scaled to a test network before any zone is created: TimeToStartTx=0 (1000 while the corpus chain startup-etx-count-rule runs), ControllerKickInBlock=0, CoinbaseLockupPrecompileKickInHeight=0, ConversionLockPeriod=2, LockupByteToBlockDepth={2,4,6,8}, CoinbaseEpochBlocks=4, TrimDepths=3..8")
 	rep.Write(f.Out)
 }
